@@ -286,15 +286,31 @@ def make_interp(kind, site):
             if where != "region":
                 return False
             self.injected = True
-            tgt = self._non_function(b) if sum(map(ord, st["id"])) % 2 else (
-                b.input_node if len(b.inputs()) else self._non_function(b))
+            v = sum(map(ord, st["id"])) % 4
+            sib = [n for n in b.hugr.children(b.parent_node) if _is(b.hugr, n, (ops.LoadFunc, ops.Call))]
+            if v == 0 and not sib and _is(b.hugr, b.hugr.root, (ops.Module,)):
+                decl = b.hugr.add_node(ops.FuncDecl("c13_decl", tys.PolyFuncType([], tys.FunctionType.empty())),
+                                       b.hugr.root)
+                sib = [b.load_function(decl)]
+            if v == 0 and sib:
+                # a node that merely carries a function SIGNATURE (a LoadFunction or a Call) is not a function
+                COUNT["callee-is-load-or-call-node"] = COUNT.get("callee-is-load-or-call-node", 0) + 1
+                tgt = sib[-1]
+            else:
+                tgt = self._non_function(b) if v % 2 else (
+                    b.input_node if len(b.inputs()) else self._non_function(b))
             expect(lambda: b.call(tgt), ValueError, "call(non-function)")
 
         def inj_load_non_function(self, where, st, b=None, **kw):
             if where != "region":
                 return False
             self.injected = True
-            tgt = self._non_function(b)
+            sib = [n for n in b.hugr.children(b.parent_node) if _is(b.hugr, n, (ops.LoadFunc, ops.Call))]
+            if sum(map(ord, st["id"])) % 3 == 0 and sib:
+                COUNT["callee-is-load-or-call-node"] = COUNT.get("callee-is-load-or-call-node", 0) + 1
+                tgt = sib[-1]
+            else:
+                tgt = self._non_function(b)
             expect(lambda: b.load_function(tgt), ValueError, "load_function(non-function)")
 
         def inj_incomplete_op_serialize(self, where, st, b=None, **kw):
